@@ -39,6 +39,34 @@ Proof.
   destruct (memN n (a_seenby a)); [inversion H|]. auto.
 Qed.
 
+Lemma hdl_res1 : forall cf s n from a s' out ns,
+  hdl cf s n from a = (s', out, 1) -> get (st_nodes s) n = Some ns -> memN n (a_seenby a) = false.
+Proof.
+  intros cf s n from a s' out ns H G. unfold hdl in H. destruct (is_w a).
+  - unfold handle_w in H. rewrite G in H.
+    destruct (seen_has _ _ _); [inversion H|]. destruct (memN n (a_seenby a)); [inversion H|]. auto.
+  - eapply handle_res1; eauto.
+Qed.
+
+Lemma filter_length_le' : forall A (f : A -> bool) l, (length (filter f l) <= length l)%nat.
+Proof. induction l; simpl; auto. destruct (f a); simpl; lia. Qed.
+
+Lemma hdl_out_len : forall cf s n from a s' out res,
+  hdl cf s n from a = (s', out, res) -> (length out <= length (neighbours s n))%nat.
+Proof.
+  intros cf s n from a s' out res H. unfold hdl in H. destruct (is_w a).
+  - unfold handle_w in H. destruct (get (st_nodes s) n); [|inversion H; subst; simpl; lia].
+    destruct (seen_has _ _ _); [inversion H; subst; simpl; lia|].
+    destruct (memN _ _); [inversion H; subst; simpl; lia|].
+    inversion H; subst. rewrite map_length. unfold flood_targets. apply filter_length_le'.
+  - unfold handle in H. destruct (get (st_nodes s) n); [|inversion H; subst; simpl; lia].
+    destruct (seen_has _ _ _); [inversion H; subst; simpl; lia|].
+    destruct (memN _ _); [inversion H; subst; simpl; lia|].
+    destruct (over_limit _ _); [inversion H; subst; simpl; lia|].
+    destruct (at_limit _ _); [inversion H; subst; simpl; lia|].
+    inversion H; subst. rewrite map_length. unfold flood_targets. apply filter_length_le'.
+Qed.
+
 Section Bound.
   Variable cf : config.
   Variable K : nat.
@@ -77,11 +105,15 @@ Section Bound.
   Lemma next_links_stable : forall s op, stable_op op -> st_links (next cf s op) = st_links s.
   Proof.
     intros s op H. unfold next.
-    destruct op as [n|i dup|n o' sq'|d|a b|a b|n k id metric|n maxage]; simpl in *; try contradiction.
+    destruct op as [n|n|i dup|n o' sq'|d|a b|a b|n k id metric|n maxage]; simpl in *; try contradiction.
     - destruct (announce s n) as [s' out] eqn:E. simpl. apply (announce_links _ _ _ _ E).
+    - destruct (withdraw s n) as [s' out] eqn:E. simpl. apply (withdraw_links _ _ _ _ E).
     - destruct (nth_error (st_flight s) i) as [m|]; simpl; auto.
-      destruct (handle cf _ (m_to m) (m_from m) (m_adv m)) as [[s2 out] res] eqn:E. simpl.
-      rewrite (handle_links _ _ _ _ _ _ _ _ E). auto.
+      destruct (is_w (m_adv m)).
+      + destruct (handle_w _ (m_to m) (m_from m) (m_adv m)) as [[s2 out] res] eqn:E. simpl.
+        rewrite (handle_w_links _ _ _ _ _ _ _ E). auto.
+      + destruct (handle cf _ (m_to m) (m_from m) (m_adv m)) as [[s2 out] res] eqn:E. simpl.
+        rewrite (handle_links _ _ _ _ _ _ _ _ E). auto.
     - apply update_node_links.
     - destruct (st_now s <? _); auto.
     - destruct k; simpl; auto; apply update_node_links.
@@ -121,31 +153,31 @@ Section Bound.
     assert (Mono : forall x, In x (nodes_from K 0) -> (pending (next cf s op) x <= pending s x)%nat).
     { intros; apply pending_mono; auto. }
     unfold potential.
-    destruct op as [n|i dup|n o' sq'|d|a b|a b|n k id metric|n maxage];
+    destruct op as [n|n|i dup|n o' sq'|d|a b|a b|n k id metric|n maxage];
       try (simpl; apply sum_over_le; exact Mono).
     set (s1 := with_flight s (if dup then st_flight s else remove_nth (st_flight s) i)) in *.
     assert (Hsent : sent cf s (Deliver i dup) =
               match nth_error (st_flight s) i with
-              | Some m => snd (fst (handle cf s1 (m_to m) (m_from m) (m_adv m)))
+              | Some m => snd (fst (hdl cf s1 (m_to m) (m_from m) (m_adv m)))
               | None => [] end).
-    { unfold sent. simpl. destruct (nth_error (st_flight s) i) as [m|]; auto. fold s1.
-      destruct (handle cf s1 (m_to m) (m_from m) (m_adv m)) as [[? ?] ?]. reflexivity. }
+    { unfold sent. rewrite step_deliver_hdl. destruct (nth_error (st_flight s) i) as [m|]; auto. fold s1.
+      destruct (hdl cf s1 (m_to m) (m_from m) (m_adv m)) as [[? ?] ?]. reflexivity. }
     assert (Hnext : forall n, has_seen (next cf s (Deliver i dup)) n o sq =
               match nth_error (st_flight s) i with
-              | Some m => has_seen (fst (fst (handle cf s1 (m_to m) (m_from m) (m_adv m)))) n o sq
+              | Some m => has_seen (fst (fst (hdl cf s1 (m_to m) (m_from m) (m_adv m)))) n o sq
               | None => has_seen s n o sq end).
-    { intros n. unfold next. simpl. destruct (nth_error (st_flight s) i) as [m|]; auto. fold s1.
-      destruct (handle cf s1 (m_to m) (m_from m) (m_adv m)) as [[? ?] ?]. reflexivity. }
+    { intros n. unfold next. rewrite step_deliver_hdl. destruct (nth_error (st_flight s) i) as [m|]; auto. fold s1.
+      destruct (hdl cf s1 (m_to m) (m_from m) (m_adv m)) as [[? ?] ?]. reflexivity. }
     unfold fwd_step. rewrite Hsent. clear Hsent.
     destruct (nth_error (st_flight s) i) as [m|] eqn:Nth.
     2:{ simpl. apply sum_over_le. exact Mono. }
-    destruct (handle cf s1 (m_to m) (m_from m) (m_adv m)) as [[s2 out] res] eqn:E. simpl in *.
+    destruct (hdl cf s1 (m_to m) (m_from m) (m_adv m)) as [[s2 out] res] eqn:E. simpl in *.
     assert (Hm : In m (st_flight s)) by (eapply nth_error_In; eauto).
     destruct (get (st_nodes s) (m_to m)) as [ns|] eqn:G.
-    2:{ unfold handle in E. simpl in E. rewrite G in E. injection E as E1 E2 E3. subst. simpl.
+    2:{ rewrite hdl_none in E by (simpl; auto). injection E as E1 E2 E3. subst. simpl.
         apply sum_over_le. exact Mono. }
     pose proof E as E'.
-    apply handle_seen in E; [|simpl; congruence].
+    apply hdl_seen in E; [|simpl; congruence].
     destruct E as [Hafter [Hseen [Hres [Hno [Hfrom [_ _]]]]]].
     destruct (is_key o sq m) eqn:Ik.
     2:{ (* other announcement: nothing of ours is sent *)
@@ -156,24 +188,25 @@ Section Bound.
         rewrite Z. simpl. apply sum_over_le. exact Mono. }
     destruct (N.eq_dec res 1) as [R1|R1].
     2:{ rewrite (Hno R1). simpl. apply sum_over_le. exact Mono. }
-    (* first processing of the announcement at m_to m *)
+    (* first processing of the announcement (or withdrawal) at m_to m *)
     subst res. specialize (Hres eq_refl).
     unfold is_key in Ik. apply andb_true_iff in Ik as [K1 K2]. apply N.eqb_eq in K1, K2.
     rewrite K1, K2 in Hres, Hafter.
     destruct Hr as [ops0 Es].
     assert (Hno' : m_to m <> o).
-    { intros Eq. pose proof (handle_res1 _ _ _ _ _ _ _ _ E' G) as Msb.
-      subst s. destruct (path_inv_run cf K ops0) as [_ [_ HP]]. destruct (HP _ Hm) as [_ [P2 _]].
-      destruct (metric_inv_run cf (fun _ => True) K ops0) as [_ [_ HM]]. { apply Forall_forall; auto. }
-      destruct (HM _ Hm) as [M1 _]. apply memN_false_iff in Msb. apply Msb. rewrite Eq. rewrite <- K1. auto. }
+    { intros Eq. pose proof (hdl_res1 _ _ _ _ _ _ _ _ E' G) as Msb.
+      apply memN_false_iff in Msb. apply Msb. rewrite Eq. rewrite <- K1.
+      subst s. destruct (path_inv_run cf K ops0) as [_ [_ HP]]. destruct (HP _ Hm) as [HPa HPw].
+      destruct (is_w (m_adv m)) eqn:Wm.
+      - destruct (HPw eq_refl) as [_ Ho]. auto.
+      - destruct (HPa eq_refl) as [_ [P2 _]].
+        destruct (metric_inv_run cf (fun _ => True) K ops0) as [_ [_ HM]]. { apply Forall_forall; auto. }
+        destruct (HM _ Hm) as [HMa _]. destruct (HMa Wm) as [M1 _]. auto. }
     assert (HtK : (N.to_nat (m_to m) < K)%nat).
     { assert (num_nodes s = K) by (subst s; apply reach_num_nodes). unfold num_nodes in H. rewrite <- H. eapply get_Some_lt; eauto. }
     assert (Hlen : (length (filter (is_key o sq) out) <= degree s (m_to m))%nat).
     { eapply Nat.le_trans; [apply filter_length_le|].
-      destruct (handle_cases _ _ _ _ _ _ _ _ _ E' G) as [ns' [_ [_ [_ Hc]]]].
-      destruct Hc as [[_ [_ [Ho _]]]|[_ [_ [[_ [_ Ho]]|[_ [_ [_ Ho]]]]]]]; subst out; simpl; try lia.
-      destruct (at_limit (limit_of cf (m_to m)) (lenN (a_path (m_adv m)))); simpl; try lia. rewrite map_length. unfold flood_targets.
-      eapply Nat.le_trans; [apply filter_length_le|]. unfold degree. apply Nat.le_refl. }
+      eapply Nat.le_trans; [eapply hdl_out_len; eauto|]. unfold degree. apply Nat.le_refl. }
     rewrite Nat.add_comm. apply (sum_over_drop _ _ _ (m_to m)); auto.
     - apply NoDup_nodes_from.
     - apply In_nodes_from. lia.
